@@ -51,6 +51,30 @@ CHECKS = {
          "Invariant over the complete write log of generated clone scenarios (L1 instrumented output, iohook log of the real CLI) and abstract layouts: every write is one source chunk at one of its offsets, each location at most once, never at a location already holding the right chunk, nothing beyond the source length.",
          "Trusted: R1/R3 for 'source chunk' and 'already in place'.",
          "property-based testing of an invariant over recorded write histories", "6 C13"),
+ "C04": ("fault_enumeration",
+         "Every single-bit flip and every truncation length of a pool of generated archives (48 in the quick tier, 600 in the thorough tier; hash length >= 8, all codecs, with and without a seed) is applied and the archive cloned; plus generated multi-byte overwrites, payload swaps, trailing garbage, dictionary-size edits, a misbehaving HTTP server (wrong bytes, 404/500 page of the requested length, short / empty body) and --verify-header right / wrong / one-bit-off, --verify-output; 8% through the real CLI. Oracle: failure, or output == source; header changes rejected at open; pinned header checksum honoured.",
+         "Trusted: R2 for header length / descriptor ranges, recording reader for 'fetched'. Expected header checksums are full-length (prefix equality is HashSum's documented semantics). Hash collisions at >= 8 bytes assumed absent.",
+         "exhaustive fault enumeration (bit flips, truncations) + property-based corruption testing", "6 C04"),
+ "C05": ("fault_enumeration",
+         "Every crash point x {before, after, torn at every byte / 1,n/2,n-1} of pooled scenarios with <= 40 output writes on the instrumented in-memory output, generated histories of up to 3 interruptions plus error injection (EIO, ENOSPC, Ok(0), short, Pending), and the real CLI killed at write k with a torn prefix or given a failing write / ftruncate through the LD_PRELOAD shim; afterwards an un-faulted --seed-output run must complete with output == source, and a run with a failed write must not report success. Found F6 and shows F2 breaks re-runs.",
+         "Crash model: byte-prefix tearing of the write in flight, earlier writes durable (no block reordering, no fsync model).",
+         "crash-point / fault enumeration over generated scenarios (stateful histories)", "6 C05"),
+ "C14": ("exploration",
+         "The real CLI on the generated matrix {clone local, clone HTTP, compress} x output {absent, regular, block device, too-small block device} x flags {neither, --force-create, --seed-output, both} x archive {valid, 8 kinds of invalid} x --verify-header {absent, right, one bit off} with generated content; whether a case is a refusal is decided by the property's table; for refusals: exit != 0, output bytes/length unchanged or still absent, nothing else in the directory changed.",
+         "Trusted: the refusal table transcribed from the property; block devices via the cfg(oll3_bita_verif) hook.",
+         "property-based testing of the real CLI over an enumerated refusal matrix", "6 C14"),
+ "C15": ("exploration",
+         "Structure-aware mutation under a valid checksum: conforming archives from the independent encoder get 1-3 field-level mutations (sizes, offsets, indexes, chunker parameters incl. 0 / extremes, enums, missing sub-messages, decompression bomb, garbage dictionary), the checksum is recomputed, and the whole reader pipeline runs step by step over local, honest-HTTP and misbehaving-HTTP transports (risky sizes and a sample through the real CLI in its own process); plus raw bytes, single-bit flips and truncations; cargo-fuzz target in the thorough tier. Violations: panic (by call site), signal, or a clock-free unboundedness predicate. 19 call sites fail today; each is an individually keyed known finding so that a new one is still a violation.",
+         "Allocation judged by request sizes at the reader boundary and decompression output sizes, not RSS. CLI wall-clock timeouts are inconclusive, never violations.",
+         "structure-aware mutation fuzzing (proptest + libFuzzer) with call-site keyed known findings", "6 C15"),
+ "C16": ("exploration",
+         "The real CLI under strace -f in every generated clone mode and compress configuration: the set of paths opened for writing / created / truncated / removed / renamed, resolved to absolute paths, must be within {output} for clone (nothing removed or renamed; archive and seeds read-only) and {archive} + self-created-and-removed temporaries for compress; recursive directory listings of the work dir and $TMPDIR before/after.",
+         "Trusted: strace's syscall log (falls back to directory listings only, and says so, if ptrace is refused).",
+         "property-based testing of the real CLI observed at the system-call boundary", "6 C16"),
+ "C17": ("exploration",
+         "Round trip through an independent encoder: generated sources are encoded with layouts bita's writer never emits (legacy magic, slack, permuted / descending / padded stored chunks, trailing bytes, unknown protobuf fields at every level, explicit zeros, unpacked rebuild order, raw-by-choice and compressed-larger-than-source chunks, metadata, foreign version, zero chunks, hash lengths 4..64); the reader must open them, report the encoder's inputs through every accessor, and clone exactly the source locally and over HTTP, with and without seeds, incl. a sample through the real CLI.",
+         "Trusted: R1, R2, harness compressors; conformance = header.rs layout table + chunk_dictionary.proto as implemented by R2.",
+         "property-based round-trip testing against an independent encoder", "6 C17"),
 }
 
 PLANNED = {
